@@ -124,6 +124,9 @@ def check_fields(case):
     import warnings
     o = Out()
     s = _blake(case)
+    with warnings.catch_warnings():
+        warnings.simplefilter('ignore')
+        other = cat.quiet(cat.cls_of(BLAKE), shear_mod=1.7 * case['G'], poisson_ratio=0.18, ref_density=2.0 * case['params']['ref_density'])    # a second solver, other material
     P = case['params']
     a, rho0, P0 = P['cavity_radius'], P['ref_density'], P['pressure_scale']
     lam, G, K, M = float(s.lame_mod), float(s.shear_mod), float(s.bulk_mod), float(s.long_mod)
